@@ -24,8 +24,15 @@ fn dump(v: &Value) -> Value {
     }
 }
 
+pub fn corpus_json_thorough() -> String {
+    corpus_json_of(alphabet::pair_corpus_thorough())
+}
+
 pub fn corpus_json() -> String {
-    let c = alphabet::pair_corpus();
+    corpus_json_of(alphabet::pair_corpus())
+}
+
+fn corpus_json_of(c: Vec<Value>) -> String {
     json!({
         "values": c.iter().map(dump).collect::<Vec<_>>(),
         "texts": c.iter().map(|v| v.to_string()).collect::<Vec<_>>(),
@@ -48,9 +55,19 @@ fn same_f64(a: f64, b: f64) -> bool {
 }
 
 pub fn run(verbose: bool) -> i32 {
+    let a = run_table(verbose, "fixtures/es_truth.json", alphabet::pair_corpus(), true);
+    let b = run_table(verbose, "fixtures/es_truth_thorough.json", alphabet::pair_corpus_thorough(), false);
+    if a != 0 || b != 0 {
+        1
+    } else {
+        0
+    }
+}
+
+fn run_table(verbose: bool, fixture: &str, corpus: Vec<Value>, with_shared_cases: bool) -> i32 {
     let mut errors = 0u64;
     let mut checked = 0u64;
-    let path = root().join("fixtures/es_truth.json");
+    let path = root().join(fixture);
     let txt = match std::fs::read_to_string(&path) {
         Ok(t) => t,
         Err(e) => {
@@ -58,12 +75,11 @@ pub fn run(verbose: bool) -> i32 {
             return 1;
         }
     };
-    let fx: Value = serde_json::from_str(&txt).expect("es_truth.json is not JSON");
-    let corpus = alphabet::pair_corpus();
+    let fx: Value = serde_json::from_str(&txt).expect("truth table is not JSON");
     let texts: Vec<String> = corpus.iter().map(|v| v.to_string()).collect();
     let fx_texts: Vec<String> = fx["texts"].as_array().unwrap().iter().map(|t| t.as_str().unwrap().to_string()).collect();
     if texts != fx_texts {
-        eprintln!("selftest: fixtures/es_truth.json was recorded for a different corpus; regenerate it with tools/gen_es_truth.sh");
+        eprintln!("selftest: {} was recorded for a different corpus; regenerate it with tools/gen_es_truth.sh", fixture);
         return 1;
     }
     let n = corpus.len();
@@ -129,10 +145,11 @@ pub fn run(verbose: bool) -> i32 {
         }
     }
     // shared JsonLogic cases
+    let mut shared = 0;
+    if with_shared_cases {
     let tpath = root().join("fixtures/jsonlogic_tests.json");
     let ttxt = std::fs::read_to_string(&tpath).expect("fixtures/jsonlogic_tests.json");
     let cases: Value = serde_json::from_str(&ttxt).unwrap();
-    let mut shared = 0;
     for c in cases.as_array().unwrap() {
         if let Value::Array(t) = c {
             shared += 1;
@@ -147,6 +164,7 @@ pub fn run(verbose: bool) -> i32 {
                 }
             }
         }
+    }
     }
     if verbose || errors > 0 {
         eprintln!(
